@@ -152,7 +152,8 @@ class Contract:
     def __init__(self, module, qualname, params, returns=None, requires=(), ensures=(),
                  raises=None, decreases=None, loops=(), prop=None, generator=False, inline=False,
                  ghost=None, calls=None, self_type=None, locals=None, domain=None, pure=True,
-                 exit_hints=(), note=''):
+                 exit_hints=(), note='', ensures_bounded=()):
+        self.ensures_bounded = list(ensures_bounded)  # checked only by the bounded runner
         self.module = module
         self.qualname = qualname
         self.params = dict(params)
